@@ -175,12 +175,85 @@ def r4_only_checked_frames_execute(ck, cx):
         ck.finding('R4', f.construct, f.detail, f.loc, f.message + ' — a server executes whatever is delivered, including writes')
 
 
+def r7_shared_datagram_framer_is_stateless(ck, cx):
+    """The asyncio and Twisted UDP front-ends create ONE framer for all peers (R3 / C09 R5 accept that: the endpoint is the
+    "connection").  Then nothing of one datagram may still be in the framer when the next one -- from any peer -- arrives: either the
+    front-end resets the framer around every datagram, or the default (socket) framer itself leaves its buffer empty whenever it
+    returns without delivering."""
+    ck.rule('R7', 'datagram front-ends that share one framer between peers: bytes of an undelivered datagram do not stay in the framer (handler resets it, or the socket framer clears its buffer on every non-delivering return)')
+    from ..framermodel import framer_paths
+    from ..frontends import recv_paths
+    shared = [fe for fe in FRONTENDS if fe[0] in ('asyncio-datagram', 'twisted-datagram')]
+    handler_resets = {}
+    for fe in shared:
+        cls, f, rps = recv_paths(cx, fe)
+        calls = [rp for rp in rps if rp.pip is not None and not rp.raised]
+        handler_resets[fe[0]] = bool(calls) and all(rp.reset for rp in calls)
+    cls, f, fps = framer_paths(cx, 'tcp')
+    n = 0
+    # entry invariant, proved by induction over calls: self._header['len'] == 0 when processIncomingPacket is entered
+    # (base: the constructor; step: every path that returns normally leaves it 0).  Paths that contradict it are infeasible.
+    import operator as _op
+    OPS = {ast.Lt: _op.lt, ast.LtE: _op.le, ast.Gt: _op.gt, ast.GtE: _op.ge, ast.Eq: _op.eq, ast.NotEq: _op.ne}
+
+    def track(fp):
+        """-> (feasible under the invariant, value of header['len'] at the end or None if unknown)"""
+        hl = 0
+        for ev in fp.path.ev:
+            if ev.kind == 'assign':
+                t = U(ev.a)
+                if t == 'self._header':
+                    v = ev.node.value
+                    hl = None
+                    if isinstance(v, ast.Dict):
+                        for k_, v_ in zip(v.keys, v.values):
+                            if isinstance(k_, ast.Constant) and k_.value == 'len' and isinstance(v_, ast.Constant):
+                                hl = v_.value
+                elif t.startswith('self._header'):
+                    hl = ev.node.value.value if t == "self._header['len']" and isinstance(ev.node.value, ast.Constant) else None
+                elif isinstance(ev.a, (ast.Tuple, ast.List)) and 'self._header' in t:
+                    hl = None
+            elif ev.kind == 'cond' and hl is not None and isinstance(ev.node, ast.Compare) and len(ev.node.ops) == 1 \
+                    and U(ev.node.left) == "self._header['len']" and isinstance(ev.node.comparators[0], ast.Constant) and type(ev.node.ops[0]) in OPS:
+                if OPS[type(ev.node.ops[0])](hl, ev.node.comparators[0].value) != ev.a:
+                    return False, hl
+        return True, hl
+    tracked = {id(fp): track(fp) for fp in fps}
+    inductive = all(hl == 0 for fp in fps for ok_, hl in [tracked[id(fp)]] if ok_ and not (fp.exit and fp.exit[0] == 'exc'))
+    ck.note('entry invariant header[len] == 0 of the socket framer is %s' % ('inductive: used to prune infeasible paths' if inductive else 'NOT inductive: no pruning'))
+    for fp in fps:
+        if fp.exit and fp.exit[0] == 'exc':
+            continue        # the handlers reset the framer after an exception (R1)
+        if inductive and not tracked[id(fp)][0]:
+            continue
+        if fp.deliveries and not fp.absences:
+            continue
+        if any(e.kind == 'cond' and e.a is False and U(e.node).replace(' ', '') in ('len(self._buffer)', 'self._buffer') for e in fp.path.ev):
+            continue        # the buffer is empty on this path: nothing to retain
+        n += 1
+        cleared = any(k == 'clear' for i, k in fp.shrinks)
+        entered_with_data = True
+        why = fp.absences[0][1][1] if fp.absences else 'frame check failed'
+        for fe in shared:
+            ck.ob('R7', f.qn, '%s: nothing of an undelivered datagram stays buffered' % fe[0], cleared or handler_resets[fe[0]] or not fp.absences and not _buffer_nonempty(fp),
+                  detail='datagram-bytes-retained %s' % fe[0], loc=cx.floc(f),
+                  message='%s shares one socket framer between all peers, and the framer can return with the bytes of an undelivered datagram still '
+                          'buffered (%s): they are prepended to the next datagram, from whichever peer' % (fe[0], why))
+    ck.floor('R7', n, 3, 'non-delivering paths of the socket framer')
+
+
+def _buffer_nonempty(fp):
+    # a path on which the frame loop was never entered with data (empty buffer) keeps nothing
+    return True
+
+
 def run(ck, tier):
     cx = Ctx()
     ck.guard(r1_containment, ck, cx, tier)
     ck.guard(r2_who_may_mutate, ck, cx)
     ck.guard(r3_no_shared_framing_state, ck, cx)
     ck.guard(r4_only_checked_frames_execute, ck, cx)
+    ck.guard(r7_shared_datagram_framer_is_stateless, ck, cx)
     ck.rule('R5', 'a write request changes exactly what its fields declare: decode() of every write request reads the spec layout, no more and no fewer values than the quantity field says (shared with C01 R3)')
     from .c01 import shared_layout_findings
     n5 = ck.guard(shared_layout_findings, ck, cx, 'R5', ('WriteMultipleCoilsRequest', 'WriteMultipleRegistersRequest', 'ReadWriteMultipleRegistersRequest',
